@@ -241,6 +241,8 @@ func run(r *chk.Run) {
 	r.Sample("int24", map[string]interface{}{"raw": "00 00 80", "signed": "-8388608", "unsigned": "8388608"})
 	// ---- 32 bit: full domain in thorough, lattice + stride in quick ---------
 	full32 := r.Thorough()
+	var cutInt32, cutF32 atomic.Bool
+	var doneInt32, doneF32 atomic.Int64
 	r.Parallel(func(shard, n int) {
 		var e int64
 		if full32 {
@@ -249,9 +251,11 @@ func run(r *chk.Run) {
 				e += 2
 				if v&0xfffff == uint64(shard) && r.Expired() {
 					r.SetExhaustive(false)
+					cutInt32.Store(true)
 					break
 				}
 			}
+			doneInt32.Add(e / 2)
 		} else {
 			// every value whose low or high 16 bits are a boundary pattern, plus a stride
 			for v := uint64(shard); v < 1<<32; v += uint64(n) * 4099 {
@@ -284,9 +288,11 @@ func run(r *chk.Run) {
 				e++
 				if v&0xfffff == uint64(shard) && r.Expired() {
 					r.SetExhaustive(false)
+					cutF32.Store(true)
 					break
 				}
 			}
+			doneF32.Add(e)
 		} else {
 			mant := []uint32{0, 1, 2, 0x7fffff, 0x7ffffe, 0x400000, 0x2aaaaa, 0x555555, 0x123456}
 			k := 0
@@ -402,7 +408,13 @@ func run(r *chk.Run) {
 	r.Set("int8_16_24", "exhaustive x {signed, unsigned}")
 	if full32 {
 		r.Set("int32", "exhaustive x {signed, unsigned}")
-		r.Set("float32", "every finite bit pattern")
+		if cutInt32.Load() {
+			r.Set("int32", fmt.Sprintf("CUT BY THE BUDGET after %d of 4294967296 values x {signed, unsigned} (each worker's arithmetic progression from its start)", doneInt32.Load()))
+		}
+		r.Set("float32", "every bit pattern")
+		if cutF32.Load() {
+			r.Set("float32", fmt.Sprintf("CUT BY THE BUDGET after %d of 4294967296 bit patterns (each worker's arithmetic progression from its start)", doneF32.Load()))
+		}
 	} else {
 		r.Set("int32", "stride 4099 x {signed, unsigned} + 64-bit boundary lattice truncated")
 		r.Set("float32", "every exponent x 9 mantissa patterns x sign")
